@@ -2164,8 +2164,7 @@ func (d *DFA) IsMatchReverse(cache *DFACache, haystack []byte, start, end int) b
 
 	currentState := d.getStartStateForReverse(cache, haystack, end)
 	if currentState == nil {
-		_, _, matched := d.pvSearch(haystack[start:end])
-		return matched
+		return d.nfaFallbackReverse(haystack, start, end) >= 0
 	}
 
 	// With 1-byte match delay, start states are never match states.
@@ -2192,16 +2191,14 @@ func (d *DFA) IsMatchReverse(cache *DFACache, haystack []byte, start, end int) b
 		case InvalidState:
 			currentState = cache.getState(sid)
 			if currentState == nil {
-				_, _, matched := d.pvSearch(haystack[start:end])
-				return matched
+				return d.nfaFallbackReverse(haystack, start, end) >= 0
 			}
 			nextState, err := d.determinize(cache, currentState, b)
 			if err != nil {
 				if isCacheCleared(err) {
 					currentState = d.getStartStateForReverse(cache, haystack, at+1)
 					if currentState == nil {
-						_, _, matched := d.pvSearch(haystack[start:end])
-						return matched
+						return d.nfaFallbackReverse(haystack, start, end) >= 0
 					}
 					sid = currentState.id
 					ft = cache.flatTrans
@@ -2209,8 +2206,7 @@ func (d *DFA) IsMatchReverse(cache *DFACache, haystack []byte, start, end int) b
 					at++ // Will be decremented by for-loop
 					continue
 				}
-				_, _, matched := d.pvSearch(haystack[start:end])
-				return matched
+				return d.nfaFallbackReverse(haystack, start, end) >= 0
 			}
 			if nextState == nil {
 				return false
@@ -2285,11 +2281,24 @@ func (d *DFA) getStartStateForReverse(cache *DFACache, haystack []byte, end int)
 }
 
 // nfaFallbackReverse handles NFA fallback for reverse search.
+//
+// The DFA's automaton is the REVERSED pattern: it reads haystack[start:end] backwards,
+// starting at end. The PikeVM reads forwards, so it is given a reversed copy of the
+// region; in longest mode the match that begins at the copy's position 0 and extends
+// furthest ends at the leftmost start of a match ending at end.
 func (d *DFA) nfaFallbackReverse(haystack []byte, start, end int) int {
-	// For reverse fallback, we need to search the region and find match start
-	matchStart, _, matched := d.pvSearch(haystack[start:end])
-	if !matched {
+	n := end - start
+	rev := make([]byte, n)
+	for i := 0; i < n; i++ {
+		rev[i] = haystack[end-1-i]
+	}
+	vm := d.getFallbackVM()
+	vm.SetLongest(true)
+	s, e, matched := vm.Search(rev)
+	vm.SetLongest(false)
+	d.pvPool.Put(vm)
+	if !matched || s != 0 {
 		return -1
 	}
-	return start + matchStart
+	return end - e
 }
